@@ -51,6 +51,11 @@ impl Server {
         let mut cmd = Command::new(exe);
         cmd.arg("serve").arg(kind).arg(format!("port={}", port));
         for a in args { cmd.arg(a); }
+        // the tracker child must not outlive this process (a run that is killed at a time limit would leave it behind)
+        unsafe {
+            use std::os::unix::process::CommandExt;
+            cmd.pre_exec(|| { libc::prctl(libc::PR_SET_PDEATHSIG, libc::SIGKILL); Ok(()) });
+        }
         let child = cmd.stdin(Stdio::null()).stdout(Stdio::piped()).stderr(Stdio::null()).spawn().ok()?;
         let s = Server { child, port, started: Instant::now(), timing: None };
         let t0 = Instant::now();
